@@ -49,3 +49,6 @@ REGISTRY['C20'] = props_diagram.run
 
 import props_env
 REGISTRY['C16'] = props_env.run
+
+import props_log
+REGISTRY['C19'] = props_log.run
